@@ -112,9 +112,25 @@ The same holds for the objects of a killed process that are released while
 its thread unwinds.  ``explore`` freezes the heap that exists before the
 search (``frozen_heap``), which makes the per-execution collection cheap.
 
+Library data.  Module-level and class-level data of a library module (a
+cache keyed by file name, a registry, a counter) belongs to the process.  For
+modules registered with ``own_library_state(module)`` (right after import) it
+is reset to its import-time value before every execution (``Run.start``,
+``DirectRuntime.__enter__``; ``reset_library_state()`` for executions that use
+neither), never inside one, and inside a ``Run`` every simulated process has
+its private copy, installed when it gets the baton (``LibraryState``;
+``selftest_library_state()`` checks the mechanism).  Names rebound through
+``Seams`` are not touched.
+
 ``conformance()`` runs operation scripts against the model and against a real
 temporary directory / real ``fcntl`` (second process = forked child) and
-returns the list of differences (empty = conforming).
+returns the list of differences (empty = conforming).  Scripts: directories,
+rename, files (including a file that is unlinked while open), record locks
+(owned by the process, dropped by closing any descriptor of the file / by
+exit), and the life cycle of a shared file that is unlinked by its last user
+and created again (``unlink``: the open descriptor keeps the unlinked inode
+and the locks on it alive, the new file of the same name is another inode,
+record locks are per inode).
 """
 import contextlib
 import errno
@@ -1204,6 +1220,79 @@ def reset_library_state():
     for ls in _LIBS:
         if ls.snap or ls.save():
             ls.load(ls.fresh())
+
+
+def selftest_library_state():
+    """the ownership of library data works: reset before an execution,
+    private copies per simulated process.  -> list of problems"""
+    import types
+    mod = types.ModuleType("simos_selftest_lib")
+    exec("registry = []\n"
+         "serial = 0\n"
+         "import os\n"
+         "class Cache:\n"
+         "    table = {}\n"
+         "    limit = 3\n"
+         "    def put(self, k, v):\n"
+         "        global serial\n"
+         "        serial += 1\n"
+         "        self.table[k] = v\n"
+         "        registry.append(k)\n"
+         "        type(self).last = k\n", mod.__dict__)
+    bad = []
+
+    def expect(what, got, want):
+        if got != want:
+            bad.append(f"{what}: {got!r}, expected {want!r}")
+    ls = LibraryState(mod)
+    table = mod.Cache.table
+    seam = Seams()
+    seam.set(mod, "os", "facade")
+    mod.Cache().put("a", 1)
+    mod.Cache.limit = 4
+    expect("used", (mod.Cache.table, mod.registry, mod.serial,
+                    mod.Cache.last), ({"a": 1}, ["a"], 1, "a"))
+    used = ls.save()
+    ls.load(ls.fresh())
+    expect("reset", (mod.Cache.table, mod.registry, mod.serial,
+                     mod.Cache.limit, hasattr(mod.Cache, "last"), mod.os),
+           ({}, [], 0, 3, False, "facade"))
+    expect("identity kept", mod.Cache.table is table, True)
+    mod.Cache().put("b", 2)
+    ls.load(used)
+    expect("swapped in", (mod.Cache.table, mod.registry, mod.serial,
+                          mod.Cache.limit, mod.Cache.last),
+           ({"a": 1}, ["a"], 1, 4, "a"))
+    seam.restore()
+    expect("seam restored", mod.os, _os)
+    ls.load(ls.fresh())
+    # inside a Run: every simulated process has its own copy, and a new
+    # execution starts from the import-time value
+    _LIBS.append(ls)
+    try:
+        seen = {}
+
+        def body(rt):
+            pid = rt.pid()
+            for i in range(2):
+                rt.syscall("note", (i,), lambda: None)
+                seen[pid, i] = (dict(mod.Cache.table), mod.serial)
+                mod.Cache().put(f"p{pid}", i)
+            return None
+        for _ in range(2):
+            seen.clear()
+            run = Run(World(), [body, body]).start()
+            try:
+                run.play([(0, STEP), (1, STEP), (0, STEP), (1, STEP),
+                          (1, STEP), (0, STEP)])
+            finally:
+                run.finish()
+            expect("per process", seen, {
+                (0, 0): ({}, 0), (1, 0): ({}, 0),
+                (0, 1): ({"p0": 0}, 1), (1, 1): ({"p1": 0}, 1)})
+    finally:
+        _LIBS.remove(ls)
+    return bad
 
 
 def _lib_save():
